@@ -92,7 +92,11 @@ def b_align(ctx):
         if shared:
             so = {project(k, list(on), shared) for k in ok}
             sp = {project(k, list(pn), shared) for k in pk}
-            if so != sp:
+            # (with EQUAL level sets keys that one operand lacks are in the domain - "NaN where the original had no such key", and the class documentation shows the
+            # union of the keys (foo, bar x tau, bar -> foo, bar, tau); narrowed after seed C13-g, which this harness had skipped over.  With one level set contained
+            # in the other the unchanged tree keeps only the keys of the operand with more levels; whether the other operand's extra keys must appear is not said by
+            # the statement, so those layouts stay restricted to matching keys - a first version demanded the union there too and alarmed on the unchanged tree)
+            if so != sp and set(on) != set(pn):
                 continue
         if None in on and None in pn:
             continue        # two unnamed levels cannot be told apart by name: not a layout of the statement (they are treated as different levels)
@@ -179,6 +183,16 @@ def b_align(ctx):
                     return None
             if not bad and okeys and not all(any(okey_of(rk) == k for rk in ro.index) for k in okeys):
                 ctx.fail('C13:row-lost', f'an object row is missing in the result for {label}, keys {ok} / {pk}', {'obj_names': on, 'obj_keys': ok, 'prm_names': pn, 'prm_keys': pk, 'reps': [orep, prep]})
+            # ... and every key of the parameter ("NaN where the original had no such key" holds in both directions: a parameter row whose key the object lacks
+            # appears with a NaN object row) - added after seed C13-g aligned a DataFrame object with a Series parameter by a left join
+            def pkey_of(rk):
+                rk = rk if isinstance(rk, tuple) else (rk,)
+                try:
+                    return tuple(rk[rnames.index(n)] for n in pn)
+                except ValueError:
+                    return None
+            if not bad and pkeys and not all(any(pkey_of(rk) == k for rk in ro.index) for k in pkeys):
+                ctx.fail(f'C13:parameter-row-lost:{okind}-object:{pkind}-parameter', f'a parameter row is missing in the result for {label}, keys {ok} / {pk}', {'obj_names': on, 'obj_keys': ok, 'prm_names': pn, 'prm_keys': pk, 'reps': [orep, prep]})
             # optional argument droplevel: the object's own levels listed there are dropped from the PARAMETER result (one row per remaining key, the parameter's value
             # for that key); the object result is as without droplevel.  Parameter values that repeat under different keys (added after seed C13-d replaced the
             # group-by-key by drop_duplicates on the values)
